@@ -95,7 +95,13 @@ def req_class(limit):
     return _classes[limit]
 
 
-def make_request(cfg):
+def private_class(limit):
+    """a Request subclass used by one case only (its class attribute may be changed during the case)"""
+    from webob.request import Request
+    return type("RP", (Request,), {"request_body_tempfile_limit": limit})
+
+
+def make_request(cfg, cls=None):
     """cfg: data(bytes) cl(None|str) seekable term(None|bool) legacy(bool) limit(int) [ctype] [method]"""
     raw = SeekRaw(cfg["data"]) if cfg["seekable"] else Raw(cfg["data"])
     env = {"REQUEST_METHOD": cfg.get("method", "POST"), "SCRIPT_NAME": "", "PATH_INFO": "/", "SERVER_NAME": "h",
@@ -109,7 +115,7 @@ def make_request(cfg):
         env["wsgi.input_terminated"] = cfg["term"]
     if cfg["legacy"]:
         env["webob.is_body_readable"] = True
-    return req_class(cfg["limit"])(env), raw
+    return (cls or req_class(cfg["limit"]))(env), raw
 
 
 class StubFS:
@@ -141,25 +147,28 @@ def app_reader(env, start_response):
     return [b"\x01" + declared_read(env)]
 
 
-def run_impl(cfg, hist, stub=True):
+def run_impl(cfg, hist, stub=True, via=None):
     """Run a history on the real webob.  hist: list of [req index, op, arg].
+    via[k] (optional): which Request wrapper over the SAME environ executes step k (0/None the first one,
+    1, 2 other long-lived wrappers, -1 a brand-new wrapper) — the model knows only the environ.
     Returns (per-step observations, per-step adversary lists)."""
     import webob.request as wr
     DE = wr.DisconnectionError
     reqs = []
     r0, raw = make_request(cfg)
     reqs.append(r0)
+    slots = [Slot(r0, raw, cfg)]
     saved = wr.cgi_FieldStorage
     if stub:
         wr.cgi_FieldStorage = StubFS
     obs, advs = [], []
     try:
-        for i, o, a in hist:
+        for k, (i, o, a) in enumerate(hist):
             if i >= len(reqs):
                 obs.append([None, raw.tell_()])
                 advs.append([])
                 continue
-            r = reqs[i]
+            r = slots[i].wrapper(via[k] if via else None)
             ncalls = len(raw.calls)
             try:
                 if o == "body":
@@ -171,9 +180,11 @@ def run_impl(cfg, hist, stub=True):
                     out = f.read() if a is None else f.read(a)
                 elif o == "copy":
                     reqs.append(r.copy())
+                    slots.append(Slot(reqs[-1], None, None))
                     out = 1
                 elif o == "copy_get":
                     reqs.append(r.copy_get())
+                    slots.append(Slot(reqs[-1], None, None))
                     out = 1
                 elif o == "post":
                     StubFS.fed = None
@@ -199,6 +210,106 @@ def run_impl(cfg, hist, stub=True):
     finally:
         wr.cgi_FieldStorage = saved
     return obs, advs
+
+
+def run_impl2(cfg_a, cfg_b, hist, stub=True):
+    """Two independent requests (two environs, two instrumented streams) alive at the same time; request indices are
+    global: 0 = A, 1 = B, 2.. = copies in creation order (the model's world init_world2)."""
+    import webob.request as wr
+    DE = wr.DisconnectionError
+    ra, rawa = make_request(cfg_a)
+    rb, rawb = make_request(cfg_b)
+    slots = [Slot(ra, rawa, cfg_a), Slot(rb, rawb, cfg_b)]
+    saved = wr.cgi_FieldStorage
+    if stub:
+        wr.cgi_FieldStorage = StubFS
+    obs, advs = [], []
+    try:
+        for i, o, a in hist:
+            if i >= len(slots):
+                obs.append([None, rawa.tell_()])
+                advs.append([])
+                continue
+            slot = slots[i]
+            r = slot.wrappers[0]
+            own = slot.raw
+            ncalls = len(own.calls) if own is not None else 0
+            try:
+                if o == "body":
+                    out = r.body
+                elif o == "fread":
+                    out = r.body_file.read() if a is None else r.body_file.read(a)
+                elif o == "sread":
+                    f = r.body_file_seekable
+                    out = f.read() if a is None else f.read(a)
+                elif o == "copy":
+                    slots.append(Slot(r.copy(), None, None))
+                    out = 1
+                elif o == "copy_get":
+                    slots.append(Slot(r.copy_get(), None, None))
+                    out = 1
+                elif o == "post":
+                    StubFS.fed = None
+                    r.POST
+                    out = 2 if StubFS.fed is None else StubFS.fed
+                elif o == "app":
+                    body = b"".join(r.call_application(app_reader)[2])
+                    out = None if body == b"\x00SKIP" else body[1:]
+                elif o == "setbody":
+                    r.body = a
+                    out = b""
+                else:
+                    raise ValueError(o)
+            except DE:
+                out = fw.Err("D")
+            wi = r.body_file_raw
+            kind = 0 if (own is not None and wi is own) else (1 if isinstance(wi, io.BytesIO) else 2)
+            pos = wi.tell_() if kind == 0 else wi.tell()
+            if isinstance(out, bytes):
+                out = bytes_val(out)
+            obs.append([out, rawa.tell_(), r.content_length, bool(r.is_body_seekable), bool(r.is_body_readable), kind, pos])
+            seek_orig = slot.seek_orig
+            advs.append([x for x in own.calls[ncalls:] if isinstance(x, int) and x >= 0]
+                        if own is not None and not seek_orig else [])
+    finally:
+        wr.cgi_FieldStorage = saved
+    return obs, advs
+
+
+def coq_cfg(cfg):
+    c = parse_cl(cfg["cl"])
+    return "(%s, %s, %s, %s, %s, %s)" % (
+        cbytes(cfg["data"]), copt(None if c is None else cZ(c)), cbool(cfg["seekable"]),
+        copt(None if cfg["term"] is None else cbool(bool(cfg["term"]))), cbool(cfg["legacy"]), cZ(cfg["limit"]))
+
+
+def coq_case2(cfg_a, cfg_b, hist, advs):
+    steps = clist("(%s, %s, %s)" % (cnat(i), cop(o, a), clist(cnat(x) for x in adv))
+                  for (i, o, a), adv in zip(hist, advs))
+    return "(%s, %s, %s)" % (coq_cfg(cfg_a), coq_cfg(cfg_b), steps)
+
+
+CFG_TYPE = "(bytes * option Z * bool * option bool * bool * Z)"
+IN_TYPE2 = "(%s * %s * list step)" % (CFG_TYPE, CFG_TYPE)
+FN2 = "(fun c => match c with (a, b, hist) => run_obs2 %d a b hist end)" % CHUNK
+
+
+def rand_hist2(rng, cfg_a, cfg_b, depth):
+    """interleaved history over the two originals (indices 0, 1) and their copies"""
+    hist, nreq = [], 2
+    for _ in range(depth):
+        i = rng.randrange(nreq) if rng.random() < 0.95 else nreq
+        n = len((cfg_a if i == 0 else cfg_b)["data"])
+        o = rng.choice(OPS)
+        a = None
+        if o in ("fread", "sread"):
+            a = rand_size(rng, n)
+        elif o == "setbody":
+            a = rand_bytes(rng, rng.choice([0, 1, 4, 9]))
+        elif o in ("copy", "copy_get"):
+            nreq += 1
+        hist.append((i, o, a))
+    return hist
 
 
 # =========================================================================== Coq literals
@@ -348,8 +459,11 @@ def rand_hist(rng, cfg, depth, ops=OPS, weights=None):
 class SReq:
     """a body with a cursor; mode in raw / short / term / none / held"""
 
-    def __init__(self, body, cur, mode, post=False, form=True):
+    def __init__(self, body, cur, mode, post=False, form=True, stream=None, cl=None):
         self.body, self.cur, self.mode, self.post, self.form = body, cur, mode, post, form
+        # while the request still sits on a server stream: its whole content, the declared length, and how far an
+        # unterminated/terminated input has been consumed (needed when the environ's flags are flipped mid-history)
+        self.stream, self.cl, self.spos = stream, cl, 0
 
     def conv(self):
         """make the body seekable; False = DisconnectionError"""
@@ -384,9 +498,30 @@ def spec_init(cfg):
         return SReq(s, 0, "held")
     if c is not None:
         if c > 0:
-            return SReq(s[:c], 0, "raw") if c <= len(s) else SReq(s, 0, "short")
-        return SReq(b"", 0, "none")
-    return SReq(s, 0, "term") if flag else SReq(b"", 0, "none")
+            return SReq(s[:c], 0, "raw", stream=s, cl=c) if c <= len(s) else SReq(s, 0, "short", stream=s, cl=c)
+        return SReq(b"", 0, "none", stream=s, cl=c)
+    return SReq(s, 0, "term", stream=s) if flag else SReq(b"", 0, "none", stream=s)
+
+
+def spec_reflag(s, flag):
+    """wsgi.input_terminated / webob.is_body_readable changed in the environ: only an input without
+    CONTENT_LENGTH that webob has not captured yet is affected"""
+    if s.stream is None or s.cl is not None or s.mode not in ("term", "none"):
+        return
+    if flag and s.mode == "none":
+        s.mode, s.body, s.cur = "term", s.stream, s.spos
+    elif not flag and s.mode == "term":
+        s.spos = s.cur
+        s.mode, s.body, s.cur = "none", b"", 0
+
+
+def spec_unseek(s):
+    """webob.is_body_seekable switched off on a held body whose file is at position 0: from now on the
+    file is treated like a server stream holding exactly the body"""
+    b = s.body
+    if b:
+        return SReq(b, 0, "raw", s.post, s.form, stream=b, cl=len(b))
+    return SReq(b"", 0, "none", s.post, s.form, stream=b, cl=0)
 
 
 def spec_step(ss, i, o, a):
@@ -492,30 +627,74 @@ def classify(cfg, o, got, acc, neg=False):
     return "%s:wrong-result%s" % (o, sk)
 
 
-def oracle_history(cfg, hist, final_check=True):
-    """None, or (key, message): the real webob.request against the reference machine, step by step."""
-    import webob.request as wr
-    DE = wr.DisconnectionError
-    r0, raw = make_request(cfg)
-    reqs, ss = [r0], [spec_init(cfg)]
-    c0 = parse_cl(cfg["cl"])
-    flag0 = cfg["term"] if cfg["term"] is not None else cfg["legacy"]
-    steps = list(hist)
-    nsteps = len(steps)
-    k = 0
-    while k < len(steps):
-        i, o, a = steps[k]
-        final = k >= nsteps
-        k += 1
-        if k == nsteps and final_check:
-            steps += [(j, "body", None) for j in range(len(reqs) + 2)]
-        if i >= len(reqs):
-            spec_step(ss, i, "body", None)
-            continue
-        r = reqs[i]
+class Slot:
+    """one environ: the Request wrappers over it, the instrumented stream it (still) reads, its spec index"""
+
+    def __init__(self, req, raw, cfg):
+        self.wrappers = [req]
+        self.env = req.environ
+        self.raw = raw
+        self.seek_orig = bool(cfg and cfg["seekable"])
+        self.pos0 = raw.tell_() if raw is not None else 0
+
+    def wrapper(self, via):
+        """via None/0: the long-lived first wrapper; k > 0: another long-lived wrapper over the same environ;
+        -1: a brand-new wrapper for this call only"""
+        w0 = self.wrappers[0]
+        if not via:
+            return w0
+        if via < 0:
+            return type(w0)(self.env)
+        k = via % 3
+        while len(self.wrappers) <= k:
+            self.wrappers.append(type(w0)(self.env))
+        return self.wrappers[k]
+
+    def flag(self):
+        return bool(self.env.get("wsgi.input_terminated", self.env.get("webob.is_body_readable", False)))
+
+    def clen(self):
+        return parse_cl(self.env.get("CONTENT_LENGTH"))
+
+
+class Run:
+    """One world (an original request and its copies) driven step by step against the reference machine.
+    Several Runs may be stepped alternately in one process."""
+
+    def __init__(self, cfg, cls=None, tag=""):
+        import webob.request as wr
+        self.DE = wr.DisconnectionError
+        self.cfg = cfg
+        self.tag = tag
+        if cls is None:
+            r0, raw = make_request(cfg)
+        else:
+            r0, raw = make_request(cfg, cls)
+        self.cls = type(r0)
+        self.slots = [Slot(r0, raw, cfg)]
+        self.ss = [spec_init(cfg)]
+        self.k = 0
+
+    def finish(self):
+        for j in range(len(self.slots) + 1):
+            res = self.step(j, "body", None, None, final=True)
+            if res:
+                return res
+        return None
+
+    def step(self, i, o, a, via=None, final=False):
+        cfg, ss = self.cfg, self.ss
+        self.k += 1
+        if i >= len(self.slots):
+            return None
+        slot = self.slots[i]
+        r = slot.wrapper(via)
         s = ss[i]
+        c_now, flag_now = slot.clen(), slot.flag()
+        raw = slot.raw
+        pos_before = raw.tell_() if raw is not None else 0
         # the original request, still on a stream whose declared length is negative
-        neg = (not cfg["seekable"]) and c0 is not None and c0 < 0 and i == 0 and s.mode == "none"
+        neg = raw is not None and not slot.seek_orig and c_now is not None and c_now < 0 and s.mode == "none"
         new = None
         try:
             if o == "body":
@@ -561,26 +740,70 @@ def oracle_history(cfg, hist, final_check=True):
                     got = f.read(a)
             elif o == "fiter":
                 got = b"".join(iter(r.body_file))
+            elif o == "setlimit":
+                # class-level state changed between accesses: no answer may depend on it
+                self.cls.request_body_tempfile_limit = a
+                return None
+            elif o == "flag":
+                # the environ's flags flipped mid-history (a = [name, value]; value None deletes the key)
+                name, val = a
+                if name == "seekable":
+                    if not (s.mode == "held" and s.cur == 0 and not val and r.body_file_raw.tell() == 0):
+                        return None          # only a rewound held body may be declared non-seekable again
+                    slot.env["webob.is_body_seekable"] = False
+                    ss[i] = spec_unseek(s)
+                    slot.raw, slot.seek_orig = None, False
+                    return None
+                key = "wsgi.input_terminated" if name == "term" else "webob.is_body_readable"
+                if val is None:
+                    slot.env.pop(key, None)
+                else:
+                    slot.env[key] = val
+                spec_reflag(s, slot.flag())
+                return None
+            elif o == "newinput":
+                # wsgi.input replaced between accesses (a = [hex data, CONTENT_LENGTH or None, how])
+                data, cl, how = bytes.fromhex(a[0]), a[1], a[2]
+                nraw = Raw(data)
+                if how == "setter":
+                    r.body_file = nraw
+                    if cl is not None:
+                        r.content_length = cl
+                else:
+                    slot.env["wsgi.input"] = nraw
+                    if cl is None:
+                        slot.env.pop("CONTENT_LENGTH", None)
+                    else:
+                        slot.env["CONTENT_LENGTH"] = str(cl)
+                    slot.env["webob.is_body_seekable"] = False
+                ncfg = {"data": data, "cl": None if cl is None else str(cl), "seekable": False,
+                        "term": slot.env.get("wsgi.input_terminated"), "legacy": bool(slot.env.get("webob.is_body_readable"))}
+                ns = spec_init(ncfg)
+                ns.form = s.form
+                ss[i] = ns
+                slot.raw, slot.seek_orig, slot.pos0 = nraw, False, 0
+                return None
             else:
                 raise ValueError(o)
-        except DE:
+        except self.DE:
             got = DISC
         except Exception as e:  # noqa
             got = fw.Err(type(e).__name__)
         if new is not None:
-            reqs.append(new)
-        where = "step %d %s(%r) on request %d" % (k - 1, o, a if not isinstance(a, bytes) or len(a) < 20 else len(a), i)
+            self.slots.append(Slot(new, None, None))
+        where = "%sstep %d %s(%r) on request %d%s" % (self.tag, self.k - 1, o, a if not isinstance(a, bytes) or len(a) < 20 else len(a), i,
+                                                   "" if not via else " through wrapper %d" % via)
         if final:
-            where = "closing .body on request %d" % i
+            where = "%sclosing .body on request %d" % (self.tag, i)
         # ---- never consume the server's stream beyond the declared length
-        if not cfg["seekable"]:
+        if raw is not None and not slot.seek_orig:
             pos = raw.tell_()
-            if c0 is not None and pos > max(c0, 0):
-                key = NEG_KEY if c0 < 0 else "overread:beyond-content-length"
-                return (key, "%s: %d bytes pulled from wsgi.input, CONTENT_LENGTH=%s" % (where, pos, cfg["cl"]))
-            if c0 is None and not flag0 and pos > 0:
+            if c_now is not None and pos > max(c_now, 0) and pos > pos_before:
+                key = NEG_KEY if c_now < 0 else "overread:beyond-content-length"
+                return (key, "%s: %d bytes pulled from wsgi.input, CONTENT_LENGTH=%s" % (where, pos, c_now))
+            if c_now is None and not flag_now and pos > pos_before:
                 return ("overread:no-content-length", "%s: %d bytes pulled from wsgi.input although there is neither "
-                        "CONTENT_LENGTH nor wsgi.input_terminated" % (where, pos))
+                        "CONTENT_LENGTH nor wsgi.input_terminated" % (where, pos - pos_before))
         if isinstance(got, fw.Err) and got != DISC:
             return (NEG_KEY if neg else "%s:exception:%s" % (o, got.name), "%s raised %s" % (where, got.name))
         # ---- the answer
@@ -609,14 +832,14 @@ def oracle_history(cfg, hist, final_check=True):
                     if not ok:
                         return (classify(cfg, o, got, [DISC], neg), "%s: %r on a stream shorter than CONTENT_LENGTH" % (where, got))
                     s.cur = s.cur + len(got) if isinstance(got, bytes) else len(s.body)
-                    continue
+                    return None
                 if want is None:
                     ok = isinstance(got, bytes) and rest.startswith(got) and len(got) <= max(a, 0) and \
                         (len(got) > 0 or a == 0 or not rest)
                     if not ok:
                         return (classify(cfg, o, got, [rest[:a]], neg), "%s returned %r, body from cursor is %r" % (where, got, rest[:40]))
                     s.cur += len(got)
-                    continue
+                    return None
                 acc = [want]
                 if got == want:
                     s.cur += len(want)
@@ -638,13 +861,45 @@ def oracle_history(cfg, hist, final_check=True):
             exp = acc[0]
             return (classify(cfg, o, got, acc, neg), "%s returned %s, expected %s" % (
                 where, short_repr(got), short_repr(exp)))
-        # ---- CONTENT_LENGTH tells the truth about a held body
+        # ---- CONTENT_LENGTH tells the truth about a held body; every wrapper over the environ agrees
         s = ss[i]
         if s.mode == "held" and got != DISC:
-            if r.content_length != len(s.body) and not (cfg["seekable"] and o not in ("setbody", "settext", "setjson") and r.body_file_raw is raw):
+            if r.content_length != len(s.body) and not (slot.seek_orig and o not in ("setbody", "settext", "setjson") and r.body_file_raw is raw):
                 return ("%s:content-length" % o, "%s: CONTENT_LENGTH is %r, the body has %d bytes" % (where, r.content_length, len(s.body)))
             if not r.is_body_seekable:
                 return ("%s:not-seekable" % o, "%s: body not flagged seekable afterwards" % where)
+        return None
+
+
+def oracle_history(cfg, hist, final_check=True, via=None):
+    """None, or (key, message): the real webob.request against the reference machine, step by step.
+    via[k] selects the Request wrapper (long-lived or brand-new, all over ONE environ) that executes step k."""
+    run = Run(cfg, cls=private_class(cfg["limit"]) if any(o == "setlimit" for _, o, _ in hist) else None)
+    for k, (i, o, a) in enumerate(hist):
+        res = run.step(i, o, a, via[k] if via else None)
+        if res:
+            return res
+    return run.finish() if final_check else None
+
+
+def oracle_two(cfg_a, hist_a, cfg_b, hist_b, order, shared_class=True):
+    """two independent requests (different environs, different streams) alive at the same time in one process,
+    their histories interleaved by `order` (0 = next step of A, 1 = next step of B): each must behave as if alone"""
+    cls = private_class(cfg_a["limit"]) if shared_class else None
+    runs = [Run(cfg_a, cls, "A: "), Run(cfg_b, cls, "B: ")]
+    hists = [list(hist_a), list(hist_b)]
+    idx = [0, 0]
+    for w in list(order) + [0] * len(hist_a) + [1] * len(hist_b):
+        if idx[w] < len(hists[w]):
+            i, o, a = hists[w][idx[w]]
+            idx[w] += 1
+            res = runs[w].step(i, o, a, None)
+            if res:
+                return res
+    for run in runs:
+        res = run.finish()
+        if res:
+            return res
     return None
 
 
@@ -703,6 +958,57 @@ def rand_xhist(rng, cfg, depth):
             a = rng.choice([None, None, 0, 1, 3, n, 9000])
         out.append((i, o, a))
     return out
+
+
+SOPS = XOPS + ["setlimit", "flag", "newinput"]
+SWEIGHTS = XWEIGHTS + [2, 4, 3]
+
+
+def rand_via(rng, n):
+    """which wrapper over the shared environ executes each step"""
+    return [rng.choice([0, 0, 1, 2, -1, -1]) for _ in range(n)]
+
+
+def rand_newinput(rng):
+    n = rng.choice([0, 1, 4, 9, 30])
+    data = form_bytes(rng, n)
+    cl = rng.choice([None, None, n, n, max(0, n - 2), n + 3, 0])
+    return [data.hex(), cl, rng.choice(["setter", "environ"])]
+
+
+def rand_shist(rng, cfg, depth):
+    """histories that also flip the environ's flags, replace wsgi.input and change the class-level limit"""
+    out = []
+    for i, o, a in rand_hist(rng, cfg, depth, ops=SOPS, weights=SWEIGHTS):
+        if o == "setlimit":
+            a = rng.choice([-1, 0, 1, 5, 10240])
+        elif o == "flag":
+            a = rng.choice([["term", True], ["term", False], ["term", None], ["legacy", True], ["legacy", None],
+                            ["seekable", False], ["seekable", False]])
+        elif o == "newinput":
+            a = rand_newinput(rng)
+        out.append((i, o, a))
+    n = len(cfg["data"])
+    fixed = []
+    for i, o, a in out:
+        if o == "settext":
+            a = rng.choice(TEXTS)
+        elif o == "setjson":
+            a = rng.choice(JSONS)
+        elif o in ("fread1", "freadinto"):
+            a = rng.choice([0, 1, 2, 5, n, n + 3, 8192])
+        elif o == "freadline":
+            a = rng.choice([None, None, 0, 1, 3, n, 9000])
+        fixed.append((i, o, a))
+    return fixed
+
+
+def stateful_universe():
+    x = b"x=1&y=2".hex()
+    return [(0, "body", None), (0, "fread", 2), (0, "fread", None), (0, "copy", None), (0, "post", None),
+            (0, "setbody", b"q=7"), (1, "body", None), (1, "fread", None),
+            (0, "flag", ["term", True]), (0, "flag", ["term", None]), (0, "flag", ["seekable", False]),
+            (0, "newinput", [x, 5, "environ"]), (0, "newinput", [x, None, "setter"]), (0, "setlimit", 1)]
 
 
 def form_bytes(rng, n):
@@ -778,8 +1084,11 @@ def corr_cases(ctx, rng, n, maxlen, depth):
     for _ in range(n):
         cfg = rand_cfg(rng, maxlen)
         hist = rand_hist(rng, cfg, rng.randrange(1, depth + 1))
-        obs, advs = run_impl(cfg, hist)
-        cases.append((coq_case(cfg, hist, advs), obs, {"cfg": jcfg(cfg), "hist": jhist(hist)}))
+        # half of the histories are executed through several Request wrappers (long-lived and brand-new) over the one
+        # environ: the model has no per-wrapper state, so its answer must be the same
+        via = rand_via(rng, len(hist)) if rng.random() < 0.5 else None
+        obs, advs = run_impl(cfg, hist, via=via)
+        cases.append((coq_case(cfg, hist, advs), obs, {"cfg": jcfg(cfg), "hist": jhist(hist), "via": via}))
     return cases
 
 
@@ -791,9 +1100,18 @@ def corr_big_cases(rng, count):
     return cases
 
 
-def report(ctx, res, cfg, hist, source):
+def report(ctx, res, cfg, hist, source, via=None):
     key, msg = res
-    ctx.fail(key, msg, {"kind": "history", "cfg": jcfg(cfg), "hist": jhist(hist)}, True, source)
+    ctx.fail(key, msg, {"kind": "history", "cfg": jcfg(cfg), "hist": jhist(hist), "via": via}, True, source)
+
+
+def consistent_cfg(rng, maxlen):
+    cfg = rand_cfg(rng, maxlen)
+    if cfg["seekable"]:
+        cfg["cl"] = str(len(cfg["data"]))
+    if rng.random() < 0.6:
+        cfg["data"] = form_bytes(rng, len(cfg["data"]))
+    return cfg
 
 
 def run(ctx):
@@ -803,13 +1121,24 @@ def run(ctx):
     rng = ctx.sub_rng("corr")
     groups = [("histories", corr_cases(ctx, rng, ctx.scale(2000, 12000), 48, ctx.scale(9, 14)), 250),
               ("buffer-and-chunk-boundaries", corr_big_cases(ctx.sub_rng("corr-big"), ctx.scale(20, 48)), 1)]
+    r2l = ctx.sub_rng("corr-two")
+    two = []
+    for _ in range(ctx.scale(500, 3000)):
+        ca, cb = rand_cfg(r2l, 40), rand_cfg(r2l, 40)
+        hist = rand_hist2(r2l, ca, cb, r2l.randrange(2, ctx.scale(10, 14)))
+        obs, advs = run_impl2(ca, cb, hist)
+        two.append((coq_case2(ca, cb, hist, advs), obs, {"a": jcfg(ca), "b": jcfg(cb), "hist": jhist(hist)}))
+    bad = ctx.corr("two-live-requests", IMPORTS, FN2, two, in_type=IN_TYPE2, shard=250)
+    for i in bad[:6]:
+        ctx.broken.append("correspondence two-live-requests: model and implementation disagree on %s" % json.dumps(two[i][2])[:1500])
     for name, cases, shard in groups:
         bad = ctx.corr(name, IMPORTS, FN, cases, in_type=IN_TYPE, shard=shard)
         for i in bad[:6]:
             cfg, hist = unj(cases[i][2])
-            res = oracle_history(cfg, hist)
+            via = cases[i][2].get("via")
+            res = oracle_history(cfg, hist, via=via)
             if res:
-                report(ctx, res, cfg, hist, "corr")
+                report(ctx, res, cfg, hist, "corr", via)
             else:
                 ctx.broken.append("correspondence %s: model and implementation disagree on %s" % (
                     name, json.dumps(cases[i][2])[:1500]))
@@ -839,7 +1168,7 @@ def run(ctx):
 
     # ---- oracle 2: random histories incl. text/json setters and the other file methods of body_file
     r2 = ctx.sub_rng("oracle-random")
-    m = ctx.scale(60000, 600000)
+    m = ctx.scale(40000, 400000)
     for _ in range(m):
         cfg = rand_cfg(r2, 70)
         if cfg["seekable"]:
@@ -870,6 +1199,67 @@ def run(ctx):
             ctx.fail(res[0], res[1], {"kind": "seekable-any", "cfg": jcfg(cfg)}, True, "seekable-any")
     ctx.oracle_count("seekable-any", m, m)
 
+    # ---- oracle 5: ONE environ served through several Request objects (long-lived and brand-new wrappers), with the
+    #      environ's flags flipped, wsgi.input replaced and the class-level temp-file limit changed mid-history
+    r5 = ctx.sub_rng("oracle-stateful")
+    m = ctx.scale(30000, 250000)
+    for _ in range(m):
+        cfg = consistent_cfg(r5, 60)
+        hist = rand_shist(r5, cfg, r5.randrange(2, 13))
+        via = rand_via(r5, len(hist))
+        res = oracle_history(cfg, hist, via=via)
+        if res:
+            report(ctx, res, cfg, hist, "stateful-random", via)
+    ctx.oracle_count("stateful-random", m, m)
+    SU = stateful_universe()
+    cnt = 0
+    for ci, cfg in enumerate([c for c in cfgs if (c["cl"] in (None, "10") and c["limit"] in (2, 10240))][:ctx.scale(4, 6)]):
+        sdepth = 5 if (ctx.thorough and ci < 2) else 4
+        for d in range(1, sdepth + 1):
+            for hist in itertools.product(SU, repeat=d):
+                cnt += 1
+                via = [(k + cnt) % 3 - 1 for k in range(d)]
+                res = oracle_history(cfg, list(hist), final_check=(d < 5), via=via)
+                if res:
+                    report(ctx, res, cfg, list(hist), "stateful-exhaustive", via)
+    ctx.oracle_count("stateful-exhaustive", cnt, cnt)
+
+    # ---- oracle 6: two independent requests alive at the same time in one process (module/class-level state):
+    #      their histories interleaved, each must behave as if it were alone; one class shared, its limit flipped
+    r6 = ctx.sub_rng("oracle-two")
+    m = ctx.scale(15000, 100000)
+    for _ in range(m):
+        ca, cb = consistent_cfg(r6, 60), consistent_cfg(r6, 60)
+        if r6.random() < 0.3:
+            n = r6.choice([8191, 8192, 8200, 9000, 20000])       # read-ahead larger than what is asked for
+            ca = dict(ca, data=pattern(n + r6.choice([0, 7])), cl=str(n), seekable=False)
+        cb["limit"] = ca["limit"]
+        ha, hb = rand_shist(r6, ca, r6.randrange(1, 8)), rand_shist(r6, cb, r6.randrange(1, 8))
+        order = [r6.randrange(2) for _ in range(len(ha) + len(hb))]
+        res = oracle_two(ca, ha, cb, hb, order)
+        if res:
+            ctx.fail(res[0], res[1], {"kind": "two", "a": {"cfg": jcfg(ca), "hist": jhist(ha)},
+                                      "b": {"cfg": jcfg(cb), "hist": jhist(hb)}, "order": order}, True, "two-live")
+    ctx.oracle_count("two-live", m, m)
+
+    # ---- oracle 7: the same cases in a different order within this process (module-level caching would show)
+    r7 = ctx.sub_rng("oracle-order")
+    batch = []
+    for _ in range(ctx.scale(3000, 30000)):
+        cfg = consistent_cfg(r7, 60)
+        batch.append((cfg, rand_xhist(r7, cfg, r7.randrange(1, 9))))
+    shuffled = list(batch)
+    r7.shuffle(shuffled)
+    for seq in (batch, list(reversed(batch)), shuffled):
+        prev = []
+        for cfg, hist in seq:
+            res = oracle_history(cfg, hist)
+            if res:
+                ctx.fail(res[0], res[1], {"kind": "sequence", "cases": [{"cfg": jcfg(c), "hist": jhist(h)}
+                                                                        for c, h in prev[-3:] + [(cfg, hist)]]}, True, "order")
+            prev.append((cfg, hist))
+    ctx.oracle_count("order", 3 * len(batch), len(batch))
+
     ctx.extra["rule"] = (
         "correspondence: random histories (<=%d steps) of body / body_file.read(k) / body_file_seekable.read(k) / copy / "
         "copy_get / POST / call_application / body= on the original request and its copies, over an instrumented "
@@ -878,7 +1268,12 @@ def run(ctx):
         "result, CONTENT_LENGTH, seekable/readable flags, kind and position of wsgi.input and bytes pulled from the "
         "server's stream; plus bodies around 8192 and 65535.  oracle: all %d^d histories to depth %d on %d configurations, "
         "random histories with text/json setters and readline/read1/readinto/iteration, large bodies, seekable inputs of "
-        "any length; every counted case runs at least one access path and a closing .body on every request"
+        "any length; STATEFUL sweeps: one environ served through several long-lived and brand-new Request wrappers, "
+        "wsgi.input_terminated / webob.is_body_readable / webob.is_body_seekable flipped, wsgi.input replaced (setter and "
+        "raw environ) and the class-level request_body_tempfile_limit changed mid-history; two independent live requests "
+        "interleaved in one process (also as a correspondence with the model world init_world2); the same batch of cases "
+        "run forward, reversed and shuffled; every counted case runs at least one access path and a closing .body on "
+        "every request"
         % (ctx.scale(9, 14), len(U), depth, len(cfgs)))
     ctx.extra["exhaustive"] = False
     ctx.assume += [
@@ -892,6 +1287,8 @@ def run(ctx):
         "call_application: the application is modelled as reading only a seekable (rewound) body; on a non-seekable "
         "input webob passes the environ through untouched",
         "CONTENT_LENGTH texts are plain decimal integers (int() leniency is C12's subject)",
+        "webob.is_body_seekable is switched off mid-history only on a held body whose file is at position 0 (otherwise "
+        "the private flag lies about the file); it is never switched on for a stream without seek()",
     ]
     ctx.trusted += [
         "io.BufferedReader abstracted as an adversary choosing every raw read size >= 1 (theorems hold for all choices; "
@@ -910,7 +1307,18 @@ def replay(ctx, path):
     if kind == "history":
         cfg, hist = unj(case)
         hist = [(i, o, a) for i, o, a in hist]
-        res = oracle_history(cfg, hist)
+        res = oracle_history(cfg, hist, via=case.get("via"))
+    elif kind == "two":
+        ca, ha = unj(case["a"])
+        cb, hb = unj(case["b"])
+        res = oracle_two(ca, ha, cb, hb, case["order"])
+    elif kind == "sequence":
+        res = None
+        for c in case["cases"]:
+            cfg, hist = unj(c)
+            res = oracle_history(cfg, hist)
+            if res:
+                break
     elif kind == "seekable-any":
         cfg = dict(case["cfg"])
         cfg["data"] = bytes.fromhex(cfg["data"])
